@@ -6,6 +6,7 @@ import (
 	"sort"
 	"strconv"
 	"strings"
+	"time"
 )
 
 // ======================================================================
@@ -664,6 +665,7 @@ func phaseB(l *Loaded, res *HarnessResult, names []string, traces [][]*ThreadTra
 		res.SolveTime += solver.SolveTime
 		solver.Close()
 	}()
+	phaseStart := time.Now()
 	idx := make([]int, len(traces))
 	for i := range idx {
 		// debugging aid: start the enumeration at a given combination
@@ -914,6 +916,21 @@ func phaseB(l *Loaded, res *HarnessResult, names []string, traces [][]*ThreadTra
 		maxCombos := 600
 		if v, ok := params["max_combos"]; ok {
 			maxCombos = v
+		}
+		maxSec := 900
+		if v, ok := params["max_seconds"]; ok {
+			maxSec = v
+		}
+		if time.Since(phaseStart) > time.Duration(maxSec)*time.Second {
+			total := 1
+			for _, tt := range traces {
+				total *= len(tt)
+			}
+			if res.Undecided == nil {
+				res.Undecided = map[string]int{}
+			}
+			res.Undecided[fmt.Sprintf("time budget (%d s per scenario): %d of %d trace combinations examined", maxSec, ncombo, total)]++
+			break
 		}
 		if nsolved >= maxCombos || ncombo-passStart > 20*maxCombos {
 			total := 1
